@@ -131,7 +131,8 @@ def invoke(fid: str, kwargs: dict[str, Any]) -> Any:
 
 
 def orig_name(fd: dict, p: str) -> str:
-    return f"o_{p}" if p in fd.get("renamed", []) else p
+    """Name of the underlying Python parameter: scoped (dotted) and explicitly renamed parameters get a sanitised one."""
+    return "o_" + p.replace(".", "_") if (p in fd.get("renamed", []) or "." in p) else p
 
 
 def make_callable(fid: str, fd: dict):
@@ -169,7 +170,7 @@ def make_pipefunc(fd: dict, tag: str = ""):
     fid = f"{tag}{fd['name']}#{next(_IDS)}"
     REG[fid] = fd
     fn = make_callable(fid, fd)
-    renames = {orig_name(fd, p): p for p in fd["params"] if p in fd.get("renamed", [])}
+    renames = {orig_name(fd, p): p for p in fd["params"] if orig_name(fd, p) != p}
     defaults = {p: py_value(v) for p, v in (fd.get("defaults") or {}).items()}
     bound = {p: py_value(v) for p, v in (fd.get("bound") or {}).items()}
     outs = fd["outputs"]
@@ -180,8 +181,8 @@ def make_pipefunc(fd: dict, tag: str = ""):
         # routing must follow the names AFTER renaming: position k is finally called outs[k]
         orig_outs = list(reversed(outs))
         renames.update({o: n for o, n in zip(orig_outs, outs) if o != n})
-    elif fd.get("outrenamed"):
-        orig_outs = [f"r_{o}" for o in outs]
+    elif fd.get("outrenamed") or any("." in o for o in outs):
+        orig_outs = ["r_" + o.replace(".", "_") for o in outs]
         renames.update(dict(zip(orig_outs, outs)))
     pf = PipeFunc(fn, orig_outs[0] if len(outs) == 1 else tuple(orig_outs), renames=renames or None,
                   defaults=defaults or None, bound=bound or None, mapspec=fd.get("mapspec"),
@@ -207,6 +208,27 @@ def make_pipeline(desc: dict, tag: str = "", **extra):
         kw["scope"] = desc["scope"]
     kw.update(extra)
     return Pipeline(funcs, **kw)
+
+
+def scoped(tdesc: dict, inputs: list, scope: str, names: set | None = None) -> tuple[dict, list]:
+    """The same description with `names` (default: every parameter and output) moved into scope `scope` (dotted names), as
+    `Pipeline.update_scope` would produce; inputs renamed accordingly.  Works on TLA-form descriptions."""
+    import copy
+    allnames = {p for f in tdesc["funcs"] for p in f["params"]} | {o for f in tdesc["funcs"] for o in f["outputs"]}
+    names = allnames if names is None else names & allnames
+
+    def r(n: str) -> str:
+        return f"{scope}.{n}" if n in names else n
+    d = copy.deepcopy(tdesc)
+    for f in d["funcs"]:
+        f["params"] = [r(p) for p in f["params"]]
+        f["outputs"] = [r(o) for o in f["outputs"]]
+        f["defaults"] = [[r(k), v] for k, v in f["defaults"]]
+        f["bound"] = [[r(k), v] for k, v in f["bound"]]
+        for side in ("ins", "outs"):
+            for a in f["ms"][side]:
+                a["name"] = r(a["name"])
+    return d, [[r(n), v] for n, v in inputs]
 
 
 # ---- description -> TLA+/JSON form ------------------------------------------------------------------
